@@ -28,8 +28,15 @@ fn filter_spaces(cfg: &Config, v: Vec<Space>) -> Vec<Space> {
     if cfg.only_spaces.is_empty() {
         v
     } else {
+        // ad-hoc deeper hunts: `--spaces <name prefixes>` restricts the run, and the environment
+        // variable LEXMC_N_BONUS adds levels to the selected spaces (never used by registered checks)
+        let bonus: usize = std::env::var("LEXMC_N_BONUS").ok().and_then(|s| s.parse().ok()).unwrap_or(0);
         v.into_iter()
             .filter(|s| cfg.only_spaces.iter().any(|p| s.name.starts_with(p.as_str())))
+            .map(|mut s| {
+                s.max_len += bonus;
+                s
+            })
             .collect()
     }
 }
